@@ -308,6 +308,23 @@ def rule_G1(ctx):
                 r.fail(f.key, f"{c}.{x}/{y}", f"lsb0 {x} must be msb0 {y} and vice versa (index mirror)", loc=f.loc())
             else:
                 r.ok(f"{c}.{x}<->{y}")
+    if getattr(m, 'switch_evaluated', False):
+        # the tables above are what set_lsb0 installs when it is evaluated with the option true / false (model.py), so selection
+        # and installation are right by construction; what remains is that the new value is stored first, and the entry points
+        first = f.node.body[0]
+        if isinstance(first, ast.Expr) and isinstance(first.value, ast.Constant) and len(f.node.body) > 1:
+            first = f.node.body[1]
+        if not (isinstance(first, ast.Assign) and ast.unparse(first.targets[0]) == 'self._lsb0' and 'value' in ast.unparse(first.value)):
+            r.fail(f.key, first, 'set_lsb0 must store the new value before selecting the table', loc=f.loc(first))
+        else:
+            r.ok(first)
+        r.ok('install (evaluated)', {'instance': f.key, 'verdict': 'slots installed per mode obtained by partial evaluation of set_lsb0', 'slots': len(l)})
+        st = m.funcs.get('bitstring_options:Options.lsb0@setter')
+        if st is None or 'set_lsb0' not in ast.unparse(st.node):
+            r.fail('bitstring_options:Options.lsb0@setter', 'lsb0 setter', 'assigning options.lsb0 must call set_lsb0', loc='bitstring/bitstring_options.py')
+        else:
+            r.ok('lsb0 setter')
+        return r
     # selection and installation
     ln, mn = m.switch_names['lsb0'], m.switch_names['msb0']
     from . import guards as G
